@@ -5,7 +5,9 @@
      3           the agent scheduler's AddBindTask, same replay
      112         law: after all bind calls, per node, the summed requests of the held tasks
                  (recomputed from the pod specs) stay within the allocatable amount
-     113         law: the hypotheses of cycle_no_overcommit hold of the generated cycle *)
+     113         law: the hypotheses of cycle_no_overcommit hold of the generated cycle
+     4           preempt / reclaim / allocate / backfill action lists: the initial node ledgers
+     114         law: no node overcommitted (now / once terminating pods are gone) after them *)
 From stdpp Require Import gmap.
 From Coq Require Import ZArith List.
 From V Require Import Base.Codec Base.Res Base.ResCodec Sched.LedgerModel Sched.StmtModel Sched.LedgerCodec
@@ -70,10 +72,53 @@ Definition law_bind (b : bind_case) (held : list (positive * list positive)) : b
 Definition dBindLaw : dec (bind_case * list (positive * list positive)) :=
   let* b := dBindCase in let* h := dList (dPair dPos (dList dPos)) in ret (b, h).
 
+(* ---- stream 4: preempt / reclaim / allocate / backfill action lists (wire format of the C04
+        harness's spec; only the cluster part is read here) ---- *)
+Definition dSkip3 : dec unit := let* _ := dZ in let* _ := dZ in let* _ := dZ in ret tt.
+Definition dEvictSpec : dec (Z * list node_spec * list job_spec * list task_spec) :=
+  let* e := dZ in let* ns := dList dNodeSpec in let* _ := dList dQueueSpec in let* js := dList dCycleJob in
+  let* ts := dList dTaskSpec in
+  let* _ := dList dSkip3 in                 (* job: priority, kube-system *)
+  let* _ := dList (dPair dZ dZ) in          (* task: priority class *)
+  let* _ := dList (dPair dZ dZ) in          (* queue: reclaimable *)
+  let* _ := dList (dList dSkip3) in         (* tiers *)
+  let* _ := dList dZ in                     (* actions *)
+  ret (e, ns, js, ts).
+
+(* the session the actions start from: its node ledgers *)
+Definition run_evict_initial (x : Z * list node_spec * list job_spec * list task_spec) : list Z :=
+  let '(e, ns, js, ts) := x in
+  eList (fun kv => eNode (snd kv)) (sort_kv (map_to_list (nodes (build e ns js ts)))).
+
+(* law 114: what the real actions left on the nodes -- per node, with the sums recomputed from the
+   pod specs: everything held but pipelined copies fits into allocatable, and so do the copies
+   that stay (not Releasing) together with the pipelined ones; asked of every node that was not
+   overcommitted before the cycle.  The same predicate as CycleLaws.law_nodes. *)
+Definition law_nodes_held (eps : Z) (ns : list node_spec) (tsp : list task_spec)
+           (held : list (positive * list (positive * status))) : bool :=
+  let ts := map (task_of_spec eps) tsp in
+  forallb (fun n =>
+    if negb (ns_has n) then true else
+    let alloc := mk_alloc (ns_cpu n) (ns_mem n) (ns_pods n) (ns_gpu n) in
+    let initially := filter (fun t => bool_decide (t_node t = Some (ns_id n)) && on_node_status (t_status t)) ts in
+    let h := flat_map snd (filter (fun x => bool_decide (fst x = ns_id n)) held) in
+    let sel (pred : status -> bool) :=
+      filter (fun t => existsb (fun x => bool_decide (fst x = t_id t) && pred (snd x)) h) ts in
+    let used := sel (fun s => negb (bool_decide (s = Pipelined))) in
+    let staying := sel (fun s => negb (bool_decide (s = Pipelined)) && negb (bool_decide (s = Releasing))) in
+    let pipelined := sel (fun s => bool_decide (s = Pipelined)) in
+    implb (sum_le initially alloc) (sum_le used alloc && sum_le (staying ++ pipelined) alloc)) ns.
+
+Definition dEvictLaw : dec (Z * list node_spec * list task_spec * list (positive * list (positive * status))) :=
+  let* e := dZ in let* ns := dList dNodeSpec in let* ts := dList dTaskSpec in
+  let* h := dList (dPair dPos (dList (dPair dPos dStatus))) in ret (e, ns, ts, h).
+
 Definition entry (sel : Z) (toks : list Z) : list Z :=
   match sel with
   | 2 => match run_dec dBindCase toks with Some b => run_bind b | None => bad_input end
   | 3 => match run_dec dBindCase toks with Some b => run_agent b | None => bad_input end
+  | 4 => match run_dec dEvictSpec toks with Some x => run_evict_initial x | None => bad_input end
+  | 114 => match run_dec dEvictLaw toks with Some (e, ns, ts, h) => eBool (law_nodes_held e ns ts h) | None => bad_input end
   | 112 => match run_dec dBindLaw toks with Some (b, h) => eBool (law_bind b h) | None => bad_input end
   | 113 => match run_dec dLawIn toks with Some (c, _, _) => eBool (world_ok_b (cc_eps c) (world_of c)) | None => bad_input end
   | _ => cycle_entry sel toks
